@@ -770,6 +770,143 @@ POSTSELECTS = ["[0]==1", "[0]<2 & [1]>0", "[0,1]==1", "([0]==0 | [1]==1) & [0,1]
 EXP_POSTSELECTS = POSTSELECTS + ["(![0]==2) & [1]<3"]
 
 
+def gen_ps_text(rng, n_modes=None, table=POSTSELECTS):
+    """the user text of a post-selection carried by another object (experiment, container, file): one of the fixed
+    table or (3 in 4) an expression of the grammar of `c15_ps` - negations of single conditions and of groups,
+    values of several digits, keyword spellings; `n_modes`: the mode indices stay below the size of the experiment"""
+    if rng.random() < 0.25:
+        return rng.choice(table)
+    # one draw in two aims at a shape (a few more draws until it occurs)
+    target = rng.choice([None, None, None, "not-single-multidigit", "not-single-multidigit", "not-group", "not-group"])
+    for _ in range(12):
+        x = c15_ps.gen_expr(rng, rng.choice([1, 1, 2, 2, 3]), wide=True, n_modes=n_modes)
+        if target is None or target in c15_ps.features(x):
+            break
+    return c15_ps.user_text(x, rng, p_keyword=0.4)
+
+
+def ps_text_branches(chk, ps, where):
+    """required-branch bookkeeping for a PostSelect object carried by `where` (shapes read off its printed form)"""
+    import re
+    txt = str(ps)
+    chk.branch(f"ps-in-{where}")
+    if "! [" in txt:
+        chk.branch(f"ps-in-{where}-negated-single")
+    if re.search(r"! \[[^]]*\] \S+ \d\d", txt):
+        chk.branch(f"ps-in-{where}-negated-single-multidigit")
+    if "! (" in txt:
+        chk.branch(f"ps-in-{where}-negated-group")
+
+
+PORT_WIDTH = {"RAW": 1, "POLARIZATION": 1, "TIME": 1, "DUAL_RAIL": 2, "QUDIT2": 4}
+PORT_SHAPES = ["in_out", "in_out", "one-sided", "one-sided", "shared-diff", "shared-diff", "shared-diff",
+               "shared-same", "twin", "split", "swap", "swap", "rerouted", "rerouted"]
+
+
+def gen_ports(rng, m, taken, items):
+    """the port declarations of an experiment of `m` modes whose modes `taken` hold heralds.  An entry is
+    `[first mode, encoding, name, location, key, early]`: entries with the same `key` (not None) register ONE Port
+    object; `early` entries are declared before the components are added, the others after the heralds.
+    Shapes: a port on both sides at once (IN_OUT); on one side only; one object declared on the input and on the
+    output side at DIFFERENT modes (in either order), at the same modes; two distinct objects with the same name and
+    encoding, one per side; two different ports (encoding, name, width) meeting on a mode, one per side; two objects
+    crossing (a swap); an early IN_OUT port whose output side is removed by a
+    component added with keep_port=False and declared again elsewhere.  Ports span 1, 2 or 4 modes.
+    -> (entries, keep_port flag for the components, shapes used)"""
+    free = {"in": set(range(m)) - set(taken), "out": set(range(m)) - set(taken)}
+    touched = set()
+    for it in items:
+        touched |= set(range(it["off"], it["off"] + comp_size(it["c"])))
+    entries, shapes = [], []
+    keys = iter(range(100))
+    keep_port = True
+
+    def place(side, w, avoid=None, inside=None):
+        starts = [a for a in range(m - w + 1) if all(i in free[side] for i in range(a, a + w))
+                  and a != avoid and (inside is None or any(i in inside for i in range(a, a + w)))]
+        return rng.choice(starts) if starts else None
+
+    def take(side, a, w):
+        free[side] -= set(range(a, a + w))
+
+    for _ in range(rng.choice([0, 1, 1, 2, 2, 3])):
+        shape = rng.choice(PORT_SHAPES)
+        enc = rng.choice(["RAW", "RAW", "POLARIZATION", "DUAL_RAIL", "DUAL_RAIL", "QUDIT2", "TIME"])
+        w = PORT_WIDTH[enc]
+        name = rng.choice(["q0", "data", "", "qa"])
+        if shape == "in_out":
+            a = place("in", w)
+            if a is None or not all(i in free["out"] for i in range(a, a + w)):
+                continue
+            take("in", a, w), take("out", a, w)
+            entries.append([a, enc, name, "IN_OUT", rng.choice([None, next(keys)]), False])
+        elif shape == "one-sided":
+            side = rng.choice(["in", "out"])
+            a = place(side, w)
+            if a is None:
+                continue
+            take(side, a, w)
+            entries.append([a, enc, name, "INPUT" if side == "in" else "OUTPUT", None, False])
+        elif shape in ("shared-diff", "shared-same", "twin"):
+            a = place("in", w)
+            if a is None:
+                continue
+            if shape == "shared-same":
+                b = a if all(i in free["out"] for i in range(a, a + w)) else None
+            else:
+                b = place("out", w, avoid=a)
+            if b is None:
+                continue
+            take("in", a, w), take("out", b, w)
+            key = next(keys) if shape != "twin" else None
+            pair = [[a, enc, name, "INPUT", key, False], [b, enc, name, "OUTPUT", key, False]]
+            if rng.random() < 0.4:
+                pair.reverse()
+            entries += pair
+        elif shape == "split":      # two different ports meet on a mode: one at the input, another at the output
+            a = place("in", w)
+            enc2 = rng.choice([e for e in PORT_WIDTH if e != enc])
+            w2 = PORT_WIDTH[enc2]
+            b = None if a is None else place("out", w2, inside=set(range(a, a + w)))
+            if b is None:
+                continue
+            take("in", a, w), take("out", b, w2)
+            entries += [[a, enc, name, "INPUT", None, False], [b, enc2, rng.choice(["out", name]), "OUTPUT", None, False]]
+        elif shape == "swap":
+            a = place("in", w)
+            if a is None:
+                continue
+            take("in", a, w)
+            b = place("in", w)
+            if b is None or not all(i in free["out"] for i in list(range(a, a + w)) + list(range(b, b + w))):
+                free["in"] |= set(range(a, a + w))
+                continue
+            take("in", b, w), take("out", a, w), take("out", b, w)
+            k1, k2, name2 = next(keys), next(keys), rng.choice(["qb", name])
+            quad = [[a, enc, name, "INPUT", k1, False], [b, enc, name2, "INPUT", k2, False],
+                    [b, enc, name, "OUTPUT", k1, False], [a, enc, name2, "OUTPUT", k2, False]]
+            if rng.random() < 0.5:
+                rng.shuffle(quad)
+            entries += quad
+        else:   # rerouted: needs a component on the modes of the early port
+            if not touched:
+                continue
+            a = place("in", w, inside=touched)
+            if a is None or not all(i in free["out"] for i in range(a, a + w)):
+                continue
+            take("in", a, w)                 # the output side is given back by the component
+            b = place("out", w, avoid=a)
+            if b is None:
+                free["in"] |= set(range(a, a + w))
+                continue
+            take("out", b, w)
+            keep_port = False
+            key = next(keys)
+            entries += [[a, enc, name, "IN_OUT", key, True], [b, enc, name, "OUTPUT", key, False]]
+        shapes.append(shape + ("-wide" if w > 1 else ""))
+    return entries, keep_port, shapes
+
+
 def gen_experiment_case(rng, depth_max, m_max):
     names = rng.sample(NAMES, rng.randint(1, 3))
     m = rng.randint(2, m_max)
@@ -784,15 +921,11 @@ def gen_experiment_case(rng, depth_max, m_max):
         items.append({"off": rng.randint(0, m - comp_size(c)), "c": c})
     free = list(range(m))
     rng.shuffle(free)
-    heralds, ports, dets = [], [], []
+    heralds, dets = [], []
     for _ in range(rng.choice([0, 0, 1, 2])):
         if len(free) > 1:
             heralds.append([free.pop(), rng.choice([0, 1]), rng.choice([None, None, "h_a", "anc"])])
-    for _ in range(rng.choice([0, 0, 1, 2])):
-        if free:
-            mode = free.pop()
-            ports.append([mode, rng.choice(["RAW", "RAW", "POLARIZATION", "DUAL_RAIL"]), rng.choice(["q0", "data", ""]),
-                          rng.choice(["IN_OUT", "INPUT", "OUTPUT"])])
+    ports, keep_port, port_shapes = gen_ports(rng, m, [h[0] for h in heralds], items)
     for mode in range(m):
         if rng.random() < 0.3:
             dets.append([mode, gen_det(rng)])
@@ -807,9 +940,9 @@ def gen_experiment_case(rng, depth_max, m_max):
         inp = {"pol": gen_state_text(rng, m, "pol")}
     return {"fam": "experiment", "m": m, "name": rng.choice([None, None, "exp 1", "Experiment"]),
             "noise": gen_noise(rng) if rng.random() < 0.4 else None, "items": items, "heralds": heralds,
-            "ports": ports, "dets": dets, "input": inp,
+            "ports": ports, "keep_port": keep_port, "port_shapes": port_shapes, "dets": dets, "input": inp,
             "filter": rng.choice([None, None, 0, 0, 1, 2, rng.randint(0, 5)]),
-            "ps": rng.choice(EXP_POSTSELECTS) if rng.random() < 0.3 else None,
+            "ps": gen_ps_text(rng, m, EXP_POSTSELECTS) if rng.random() < 0.4 else None,
             "env": gen_env(rng, names), "entry": rng.choice(["text", "textz", "file", "filez"])}
 
 
@@ -1049,8 +1182,24 @@ def build_experiment(s, b=None):
     if s["noise"] is not None:
         kw["noise"] = NoiseModel(**s["noise"])
     e = pcvl.Experiment(s["m"], **kw)
+    port_objs = {}
+
+    def declare(ent):
+        mode, enc, name, loc = ent[:4]
+        key = ent[4] if len(ent) > 4 else None
+        port = port_objs.get(key) if key is not None else None
+        if port is None:
+            port = pcvl.Port(getattr(pcvl.Encoding, enc), name)
+            if key is not None:
+                port_objs[key] = port
+        e.add_port(mode, port, location=getattr(PortLocation, loc))
+
+    for ent in s["ports"]:
+        if len(ent) > 5 and ent[5]:
+            declare(ent)
+    akw = {} if s.get("keep_port", True) else {"keep_port": False}
     for it in s["items"]:
-        e.add(it["off"], b.comp(it["c"]))
+        e.add(it["off"], b.comp(it["c"]), **akw)
     for mode, d in s["dets"]:
         e.add(mode, build_det(d))
     for f in s.get("ffs", []):
@@ -1063,8 +1212,9 @@ def build_experiment(s, b=None):
         e.add(it["off"], b.comp(it["c"]))
     for mode, val, name in s["heralds"]:
         e.add_herald(mode, val, name)
-    for mode, enc, name, loc in s["ports"]:
-        e.add_port(mode, pcvl.Port(getattr(pcvl.Encoding, enc), name), location=getattr(PortLocation, loc))
+    for ent in s["ports"]:
+        if not (len(ent) > 5 and ent[5]):
+            declare(ent)
     if own:
         b.finish()
     inp = s["input"]
@@ -1202,9 +1352,9 @@ def same_obj(x, y):
     if isinstance(x, NoiseModel):
         return None if isinstance(y, NoiseModel) and x.__dict__() == y.__dict__() and x == y else "noise model differs"
     if isinstance(x, PostSelect):
-        if not isinstance(y, PostSelect) or str(x) != str(y):
+        if not isinstance(y, PostSelect):
             return "post-selection differs"
-        return None
+        return c15_ps.same_postselect(x, y)
     if isinstance(x, Matrix):
         if x.is_symbolic():
             return None if str(x) == str(y) else "symbolic matrix differs"
@@ -1376,7 +1526,19 @@ def exp_extra(e):
     """what `desc_experiment` (the model's abstract syntax) does not carry"""
     return {"is_unitary": bool(e.is_unitary), "has_td": bool(e.has_td), "has_feedforward": bool(e.has_feedforward),
             "detectors_injected": sorted(e.detectors_injected), "mode_type": [t.name for t in e._mode_type],
-            "m": e.m, "heralds": sorted([k, v] for k, v in e.heralds.items())}
+            "m": e.m, "heralds": sorted([k, v] for k, v in e.heralds.items()),
+            "input ports per mode": [None if e.get_input_port(i) is None else desc_port(e.get_input_port(i))
+                                     for i in range(e.circuit_size)],
+            "output ports per mode": [None if e.get_output_port(i) is None else desc_port(e.get_output_port(i))
+                                      for i in range(e.circuit_size)],
+            "in_port_names": port_names(e, e.in_port_names), "out_port_names": port_names(e, e.out_port_names)}
+
+
+def port_names(e, names):
+    """`in_port_names` / `out_port_names` without the auto-generated herald names (numbered in declaration order by
+    the original, in mode order by the reader: not user data)"""
+    anon = {m for p, ms in e._in_ports.items() if "herald" in desc_port(p) and p.user_given_name is None for m in ms}
+    return [None if i in anon else n for i, n in enumerate(names)]
 
 
 def ff_named_params(c, out):
@@ -1414,11 +1576,22 @@ def same_experiment(x, y):
     dy = desc_experiment(y, input_override=[])
     for k in dx:
         if dx[k] != dy[k]:
-            return {"filter": f"min_photons_filter {dx[k]} became {dy[k]}"}.get(k, f"field {k} differs")
+            return {"filter": f"min_photons_filter {dx[k]} became {dy[k]}",
+                    "in": f"input ports [first mode, port] {dx[k]} became {dy[k]}",
+                    "out": f"output ports [first mode, port] {dx[k]} became {dy[k]}",
+                    "ps": f"post-selection {dx[k]} became {dy[k]}"}.get(k, f"field {k} differs")
     ex, ey = exp_extra(x), exp_extra(y)
     for k in ex:
         if ex[k] != ey[k]:
             return f"{k}: {ex[k]} became {ey[k]}"
+    if x.post_select_fn is not None:
+        if y.post_select_fn is None:
+            return "the post-selection is lost"
+        r = c15_ps.same_postselect(x.post_select_fn, y.post_select_fn, width=x.circuit_size)
+        if r:
+            return r
+    elif y.post_select_fn is not None:
+        return "a post-selection appeared"
     objs = exp_named_params(y, [])
     if not identity_ok({id(p): p for p in objs}.values()):
         return "one variable name is several Parameter objects after the round trip"
@@ -1823,6 +1996,48 @@ def strip_ff(d):
     return d
 
 
+def port_stats(chk, e, spec):
+    """required-branch bookkeeping of the port layout, read off the object that was built"""
+    from perceval.components import Herald
+    ins = {id(p): (p, ms) for p, ms in e._in_ports.items() if not isinstance(p, Herald)}
+    outs = {id(p): (p, ms) for p, ms in e._out_ports.items() if not isinstance(p, Herald)}
+    crossed = []
+    for k, (p, ms) in ins.items():
+        if k in outs:
+            if outs[k][1] != ms:
+                chk.branch("port-shared-object-different-modes")
+                chk.count("port_shape", "one object, input and output at different modes")
+                crossed.append((ms, outs[k][1]))
+                if len(ms) > 1:
+                    chk.branch("port-shared-object-different-modes-wide")
+                if e.heralds:
+                    chk.branch("port-shared-object-with-herald")
+                if not spec.get("keep_port", True):
+                    chk.branch("port-rerouted-by-component")
+            else:
+                chk.branch("port-shared-object-same-modes")
+                chk.count("port_shape", "one object, same modes on both sides")
+        else:
+            chk.branch("port-one-sided")
+            chk.count("port_shape", "input only")
+            if any(desc_port(q) == desc_port(p) for q, _ in outs.values()):
+                chk.branch("port-twin-objects")
+    for k in outs:
+        if k not in ins:
+            chk.branch("port-one-sided")
+            chk.count("port_shape", "output only")
+    if any((b, a) in crossed for a, b in crossed):
+        chk.branch("port-swap")
+    for i in range(e.circuit_size):
+        a, b = e.get_input_port(i), e.get_output_port(i)
+        if a is not None and b is not None and not isinstance(a, Herald) and desc_port(a) != desc_port(b):
+            chk.branch("port-sides-differ-on-a-mode")
+            break
+    keyed = [(ent[3], ent[4]) for ent in spec["ports"] if len(ent) > 4 and ent[4] is not None]
+    if any(loc == "OUTPUT" and ("INPUT", key) in keyed[i + 1:] for i, (loc, key) in enumerate(keyed)):
+        chk.branch("port-output-declared-first")
+
+
 def judge_experiment(chk, spec, tmpdir, stats=False):
     from perceval.serialization import _schema_circuit_pb2 as pb
     from perceval.components import IDetector
@@ -1853,6 +2068,9 @@ def judge_experiment(chk, spec, tmpdir, stats=False):
         if any(it["c"]["t"] == "leaf" and it["c"]["kind"] in ("td", "lc") for it in spec["items"]):
             chk.branch("experiment-non-unitary")
         chk.count("input", "none" if spec["input"] is None else list(spec["input"])[0])
+        port_stats(chk, x, spec)
+        if x.post_select_fn is not None:
+            ps_text_branches(chk, x.post_select_fn, "experiment")
         for r in recs:
             ff_stats(chk, r, "in-experiment" if r.get("top") else "nested")
         if len(top) >= 2:
@@ -2011,13 +2229,19 @@ def shrink_experiment(chk, spec, tmpdir, kind):
     cand = dict(cur, entry="text")
     if fails(cand):
         cur = cand
+    if not cur.get("keep_port", True):
+        cand = dict(cur, keep_port=True)
+        if fails(cand):
+            cur = cand
+    cur.pop("port_shapes", None)
     return cur
 
 
 # --- stand-alone objects -------------------------------------------------------------------------
 def gen_simple_case(rng, fam=None):
     fam = fam or rng.choice(["det", "det", "port", "herald", "noise", "noise", "matrix", "matrix", "state", "state",
-                      "sv", "sv", "svd", "bsd", "bsd", "bsc", "bss", "bss", "postselect", "component",
+                      "sv", "sv", "svd", "bsd", "bsd", "bsc", "bss", "bss", "postselect", "postselect", "postselect", "postselect", "postselect",
+                      "component",
                       "container", "container", "ff", "ff", "ff", "ff", "ff", "ff"])
     s = {"fam": fam, "entry": rng.choice(["text", "textz", "default", "file", "filez"])}
     m = rng.randint(1, 4)
@@ -2062,7 +2286,7 @@ def gen_simple_case(rng, fam=None):
         else:
             s["bss"] = [rng.choice(sts) for _ in range(rng.randint(1, 12))] if sts else []
     elif fam == "postselect":
-        s["ps"] = rng.choice(POSTSELECTS)
+        s["ps"] = gen_ps_text(rng)
     elif fam == "component":
         s["c"] = gen_leaf(rng, ["a"], rng.choice([0.0, 0.7]), False, kinds=["td", "lc"])
         s["env"] = {"a": rng.choice([None, 0.25])}
@@ -2079,7 +2303,8 @@ def gen_simple_case(rng, fam=None):
 
 def gen_container(rng, depth):
     def leaf():
-        t = gen_simple_case(rng, "ff" if rng.random() < 0.15 else None)
+        r = rng.random()
+        t = gen_simple_case(rng, "ff" if r < 0.15 else "postselect" if r < 0.33 else None)
         while t["fam"] in ("container",):
             t = gen_simple_case(rng)
         return {"leaf": t}
@@ -2195,6 +2420,19 @@ def text_numbers(payload):
     return out
 
 
+def tree_leaves(t, out):
+    if type(t) is dict:
+        for k, v in t.items():
+            tree_leaves(k, out)
+            tree_leaves(v, out)
+    elif type(t) is list:
+        for v in t:
+            tree_leaves(v, out)
+    else:
+        out.append(t)
+    return out
+
+
 def judge_simple(chk, spec, tmpdir, stats=False):
     from perceval.serialization import _schema_circuit_pb2 as pb
     from perceval.serialization import serialize
@@ -2220,6 +2458,12 @@ def judge_simple(chk, spec, tmpdir, stats=False):
                     chk.branch("ff-in-container")
         for r in recs:
             ff_stats(chk, r, "standalone" if r is recs[-1] else "nested")
+        if fam == "postselect":
+            ps_text_branches(chk, x, "object")
+        if fam == "container":
+            for leaf in tree_leaves(x, []):
+                if type(leaf).__name__ == "PostSelect":
+                    ps_text_branches(chk, leaf, "container")
     # what the original holds, before the writer touches it (serialize_statevector normalises in place)
     x0 = build_simple(spec) if fam in ("sv", "svd", "container") else x
     try:
@@ -2418,6 +2662,14 @@ def check_grid_values(chk, rng, n):
 
 
 # --- post-selection expressions (Model/C15PS.lean) ------------------------------------------------------
+PS_FEATURE_BRANCHES = {"not-single": "negated-single", "not-single-multidigit": "negated-single-multidigit",
+                       "not-single-multidigit-nonlast": "negated-single-multidigit-not-last",
+                       "not-single-mode-multidigit": "negated-single-mode-multidigit",
+                       "not-group": "negated-group", "not-group-multidigit": "negated-group-multidigit",
+                       "not-not": "double-negation", "value-multidigit": "value-multidigit", "value-max": "value-max",
+                       "mode-multidigit": "mode-multidigit", "modes-list-multidigit": "mode-list-multidigit"}
+
+
 def judge_psx(chk, spec, tmpdir, stats=False):
     import random
     from collections import Counter
@@ -2437,6 +2689,13 @@ def judge_psx(chk, spec, tmpdir, stats=False):
             chk.branch("ps-negation")
         if c15_ps.spec_depth(spec["x"]) >= 3:
             chk.branch("ps-nested")
+        for k in PS_FEATURE_BRANCHES:
+            if k in f:
+                chk.branch("ps-" + PS_FEATURE_BRANCHES[k])
+        if st.get("keyword-text"):
+            chk.branch("ps-keyword-spelling")
+        for k in f:
+            chk.count("postselect_shape", k)
         if res is None:
             chk.case(("psx", json.dumps(spec["x"], sort_keys=True)[:300]), nontrivial=c15_ps.spec_size(spec["x"]) > 1,
                      sample={"family": "postselect-expression"})
@@ -2694,13 +2953,25 @@ def run(chk: core.Check):
                              "text-model-bss", "text-model-annotated", "text-model-annotated-sv", "text-number-exponent",
                              "text-reader-both-accept", "text-reader-both-reject", "text-reader-respelled",
                              "ps-model", "ps-negation", "ps-negation-not-last", "ps-nested",
+                             "ps-negated-single", "ps-negated-single-multidigit", "ps-negated-single-multidigit-not-last",
+                             "ps-negated-single-mode-multidigit", "ps-negated-group", "ps-negated-group-multidigit",
+                             "ps-double-negation", "ps-value-multidigit", "ps-value-max", "ps-mode-multidigit",
+                             "ps-mode-list-multidigit", "ps-keyword-spelling",
+                             "ps-in-experiment", "ps-in-experiment-negated-single",
+                             "ps-in-experiment-negated-single-multidigit", "ps-in-experiment-negated-group",
+                             "ps-in-object", "ps-in-object-negated-single-multidigit", "ps-in-object-negated-group",
+                             "ps-in-container",
+                             "port-shared-object-different-modes", "port-shared-object-different-modes-wide",
+                             "port-shared-object-same-modes", "port-shared-object-with-herald", "port-one-sided",
+                             "port-twin-objects", "port-swap", "port-rerouted-by-component",
+                             "port-output-declared-first", "port-sides-differ-on-a-mode",
                              "tree-model", "tree-object-key", "tree-deep", "tree-compress-list", "tree-file",
                              "ffcp-stale-max", "ffc-tables-model", "ffc-values-beyond-precision", "f32-model"]
     chk.lean = core.LeanDriver("C15")
     rng = chk.rng
     pc().random_seed(chk.seed)
     n_circ = chk.pick(450, 9000)
-    n_exp = chk.pick(200, 4000)
+    n_exp = chk.pick(300, 4500)
     n_ffexp = chk.pick(200, 3000)
     n_ff = chk.pick(150, 2500)
     n_simple = chk.pick(500, 10000)
@@ -2723,8 +2994,8 @@ def run(chk: core.Check):
             specs.append(gen_simple_case(rng))
         for _ in range(n_ff):
             specs.append(gen_simple_case(rng, "ff"))
-        for _ in range(chk.pick(300, 5000)):
-            specs.append({"fam": "psx", "x": c15_ps.gen_expr(rng, rng.choice([0, 1, 1, 2, 2, 3])),
+        for _ in range(chk.pick(600, 6000)):
+            specs.append({"fam": "psx", "x": c15_ps.gen_expr(rng, rng.choice([0, 1, 1, 2, 2, 3]), wide=rng.random() < 0.6),
                           "seed": rng.randint(0, 10 ** 9)})
         for _ in range(chk.pick(250, 4000)):
             specs.append(gen_tree_case(rng))
